@@ -42,3 +42,16 @@ Theorem C04_segments_terminate : forall stop, stop <= MAX64 -> forall fuel low h
   segments_loop fuel stop low high size <> None.
 Proof. exact segments_loop_total. Qed.
 Print Assumptions C04_segments_terminate.
+
+(** the cross-off step tables of the three sieving algorithms, as extracted from the current source, are
+    exact (every entry clears the bit of the current multiple and moves to the next wheel multiple) *)
+From PS Require Import Gen.Tables Proofs.WheelStepsP.
+Theorem C04_step_tables_ok :
+  steps30_ok eratSmallSteps = true /\ steps30_ok eratMediumSteps = true /\ steps210_ok eratBigWheel = true /\ unrolled_ok = true.
+Proof. exact (conj eratSmallSteps_ok (conj eratMediumSteps_ok (conj eratBigWheel_ok eratSmallUnrolled_ok))). Qed.
+Print Assumptions C04_step_tables_ok.
+Theorem C04_step_lift : forall low i sp r o gap c o',
+  o + gap * r = 30 * c + o' ->
+  (low + 30 * i + o) + gap * (30 * sp + r) = low + 30 * (i + gap * sp + c) + o'.
+Proof. exact step_lift. Qed.
+Print Assumptions C04_step_lift.
